@@ -839,6 +839,11 @@ fn part_rollback(rng: &mut Rng, rep: &mut Report, cw: &mut CaseWriter, gr: &mut 
         },
         None => None,
     };
+    if let Ok(dir) = std::env::var("VERIF_TXN_DUMP") {
+        let mut b = base.clone();
+        std::fs::write(format!("{}/rb{}.bin", dir, pi), b.save()).unwrap();
+        std::fs::write(format!("{}/rb{}.txt", dir, pi), format!("actor {}\nheads {:?}\n", base.get_actor(), iso_heads.as_ref().map(|h| h.iter().map(|x| hex(&x.0)).collect::<Vec<_>>()))).unwrap();
+    }
     let props = ["C28"];
     let replay_json = |log: &Vec<String>| json!({"program": pi, "part": "rollback", "log": log});
 
